@@ -126,7 +126,13 @@ OPS = (["write"] * 5 + ["mkdir"] * 3 + ["symlink"] * 2 + ["chmod"] * 2 +
        ["rm_disk"] * 3 + ["change_kind"] * 2 + ["add"] * 6 +
        ["smart_add"] * 3 + ["remove"] * 4 + ["rename_one"] * 6 +
        ["move"] * 6 + ["commit"] * 3 + ["revert"] * 2 + ["reopen"] * 3 +
-       ["observe"] * 1 + ["reset_parents"] * 1 + ["rebase"] * 2)
+       ["observe"] * 1 + ["reset_parents"] * 1 + ["rebase"] * 2 +
+       ["mv_disk"] * 3)
+
+
+# what a stretch under one lock mostly does
+LOCKED_OPS = ["mv_disk", "mv_disk", "move", "move", "rename_one",
+              "rename_one", "rm_disk", "remove", "add", "write"]
 
 
 def draw_step(draw, m, op=None):
@@ -197,6 +203,17 @@ def draw_step(draw, m, op=None):
         c = (draw(st.sampled_from(TEXTS)) if k == "file" else
              draw(st.sampled_from(TARGETS)) if k == "symlink" else None)
         return ["change_kind", p, k, c, False]
+    if op in ("add", "write", "commit") and m.fmt == "git":
+        dirified = [p for p in m.idx if m.real_dir(p)]
+        below = [q for q in unver if m.kind(q) != "directory" and any(
+            inside(p, q) for p in dirified)]
+        if below and draw(st.booleans()):
+            return ["add", _pick(draw, below)]
+        empty = [p for p in dirified if not m.children(p) and
+                 depth(p) < MAX_DEPTH]
+        if empty and draw(st.booleans()):
+            return ["write", join(_pick(draw, empty), _pick(draw, NAMES)),
+                    draw(st.sampled_from(TEXTS)), False]
     if op == "add":
         r = draw(st.integers(0, 19))
         orphans = [p for p in unver if not m.is_versioned(parent(p))]
@@ -238,6 +255,11 @@ def draw_step(draw, m, op=None):
         vdirs =[""] + [p for p in ver if m.real_dir(p)]
         gone = [p for p in ver if m.kind(p) is None]
         landed = [p for p in unver if m.is_versioned(parent(p))]
+        if ver and landed and draw(st.integers(0, 4)) == 0:
+            # after=True: record a move that "already happened", whether or
+            # not the source is still there
+            return ["rename_one", _pick(draw, gone or ver),
+                    _pick(draw, landed), True]
         if gone and landed and draw(st.integers(0, 1)) == 0:
             # "already moved by hand": the versioned source is missing and
             # the target is an unversioned path that exists
@@ -256,6 +278,16 @@ def draw_step(draw, m, op=None):
         if not ver:
             return None
         vdirs = [""] + [p for p in ver if m.real_dir(p)]
+        landed = [p for p in unver if parent(p) in vdirs and any(
+            base(q) == base(p) and q != p for q in ver)]
+        if landed and draw(st.integers(0, 2)) == 0:
+            # the source (possibly missing) has an unversioned namesake in
+            # the target directory: already moved by hand, or after=True
+            b = _pick(draw, landed)
+            srcs = [q for q in ver if base(q) == base(b) and q != b]
+            gone = [q for q in srcs if m.kind(q) is None]
+            return ["move", [_pick(draw, gone or srcs)], parent(b),
+                    draw(st.booleans())]
         r = draw(st.integers(0, 9))
         if r < 7:
             # sources and a directory they can move to
@@ -290,6 +322,25 @@ def draw_step(draw, m, op=None):
         if not cands:
             return ["revert", None]
         return ["revert", [_pick(draw, cands)]]
+    if op == "mv_disk":
+        # a path moved by hand (the tree is not told); versioned ones first
+        on = [p for p in ver if m.kind(p) is not None] or sorted(m.disk)
+        if not on:
+            return None
+        a = _pick(draw, on)
+        # half of the time into another versioned directory under the same
+        # name (what move() can be told about afterwards)
+        homes = [d for d in [""] + [p for p in ver if m.real_dir(p)]
+                 if d != parent(a) and not inside(a, d) and
+                 m.kind(join(d, base(a))) is None and
+                 not m.is_versioned(join(d, base(a))) and
+                 depth(d) < MAX_DEPTH]
+        if homes and draw(st.booleans()):
+            return ["mv_disk", a, join(_pick(draw, homes), base(a))]
+        b = _new_path(draw, m)
+        if b is None or inside(a, b):
+            return None
+        return ["mv_disk", a, b]
     if op == "reopen":
         return ["reopen"]
     if op == "reset_parents":
@@ -305,11 +356,12 @@ def _paths_of(step):
     op = step[0]
     if op in ("smart_add", "revert"):
         return list(step[1] or [])
-    if op == "rename_one":
+    if op in ("rename_one", "mv_disk"):
         return [step[1], step[2]]
     if op == "move":
         return list(step[1]) + [step[2]]
-    if op in ("commit", "reopen", "observe", "reset_parents", "rebase"):
+    if op in ("commit", "reopen", "observe", "reset_parents", "rebase",
+              "lock", "unlock"):
         return []
     return [step[1]]
 
@@ -338,7 +390,25 @@ def gen_case(fmt, max_steps, format=None):
             pre = ["create"] * draw(st.integers(3, 7)) + ["adopt"]
             if draw(st.integers(0, 9)) < 6:
                 pre.append("commit")
+        # one long-lived write lock on the tree object over a stretch of the
+        # sequence (no reopen inside): caches built by an observation inside
+        # the lock must follow the later operations
+        lock_at = lock_len = None
+        if draw(st.integers(0, 9)) < 5:
+            lock_at = len(pre) + draw(st.integers(0, max(0, n - 4)))
+            lock_len = draw(st.integers(3, 8))
+        locked = 0
+        mode = None
+        hint = None
         for i in range(n + len(pre)):
+            if i == lock_at:
+                mode = draw(st.sampled_from(["write", "tree_write"]))
+                steps.append(["lock", mode])
+                locked = lock_len
+            elif locked:
+                locked -= 1
+                if locked == 0:
+                    steps.append(["unlock"])
             if i < len(pre):
                 if pre[i] == "create":
                     s = draw_step(draw, m, draw(st.sampled_from(
@@ -347,10 +417,24 @@ def gen_case(fmt, max_steps, format=None):
                     s = ["smart_add", [], True]
                 else:
                     s = ["commit"]
+            elif hint and draw(st.integers(0, 3)) != 0:
+                # tell the tree about the move just made by hand
+                a, b = hint
+                if parent(a) != parent(b) and base(a) == base(b) and \
+                        draw(st.integers(0, 3)) != 0:
+                    s = ["move", [a], parent(b), draw(st.booleans())]
+                else:
+                    s = ["rename_one", a, b, draw(st.booleans())]
             else:
-                s = draw_step(draw, m)
+                s = draw_step(draw, m, op=draw(st.sampled_from(
+                    LOCKED_OPS)) if locked and draw(st.booleans()) else None)
+            hint = None
             if s is None or not all(_clean(m, p) for p in _paths_of(s)):
                 continue
+            if locked and s[0] in ("reopen", "rebase"):
+                continue
+            if locked and mode == "tree_write" and s[0] == "commit":
+                continue      # needs the branch write lock (no upgrade)
             c = m.clone()
             try:
                 c.apply(s)
@@ -362,8 +446,13 @@ def gen_case(fmt, max_steps, format=None):
                 # precondition of an already listed defect: keep it rare so
                 # that sequences get past it
                 continue
+            if s[0] == "mv_disk" and m.is_versioned(s[1]) and \
+                    m.is_versioned(parent(s[2])):
+                hint = (s[1], s[2])
             m = c
             steps.append(s)
+        if locked:
+            steps.append(["unlock"])
         if draw(st.integers(0, 9)) < 7:
             steps.append(["reopen"])
         case = {"fmt": fmt, "steps": steps}
@@ -429,9 +518,11 @@ def do_step(wt, s, root):
     elif op == "remove":
         wt.remove([s[1]], keep_files=s[2], force=not s[2])
     elif op == "rename_one":
-        wt.rename_one(s[1], s[2])
+        wt.rename_one(s[1], s[2], after=bool(s[3]) if len(s) > 3 else False)
     elif op == "move":
-        wt.move(list(s[1]), s[2])
+        wt.move(list(s[1]), s[2], after=bool(s[3]) if len(s) > 3 else False)
+    elif op == "mv_disk":
+        os.rename(ap, os.path.join(root, s[2]))
     elif op == "commit":
         if wt.branch.repository._format.supports_setting_revision_ids:
             return bz.commit(wt)
@@ -591,14 +682,39 @@ def run(case, env):
     idmap = {}
     revs = []
     labels = set()
+    last_obs = observe(wt)
+    held = [False]
+    try:
+        return _steps(case, env, wt, root, m, idmap, revs, labels, held,
+                      last_obs)
+    finally:
+        if held[0]:
+            held[0].unlock()
+
+
+def _steps(case, env, wt, root, m, idmap, revs, labels, held, last_obs):
     muts = 0
     structural = False
     removed_paths = set()
     kind_changed = False
     refused = 0
-    last_obs = observe(wt)
     for i, s in enumerate(case["steps"]):
         op = s[0]
+        if op == "lock":
+            # everything up to "unlock" runs on this tree object under this
+            # one lock; the observations in between nest read locks in it
+            (wt.lock_write if s[1] == "write" else wt.lock_tree_write)()
+            held[0] = wt
+            continue
+        if op == "unlock":
+            wt.unlock()
+            held[0] = False
+            obs = observe(wt)
+            check(obs == last_obs, "C09/observation-changes-at-unlock",
+                  {"step": [i, s],
+                   "inside_vs_after": {k: [last_obs[k], obs[k]]
+                                       for k in obs if obs[k] != last_obs[k]}})
+            continue
         if op == "reopen":
             before = observe(wt)
             del wt
@@ -672,6 +788,25 @@ def run(case, env):
                "got_vs_expected": {p: [fs.get(p), expfs.get(p)]
                                    for p in set(fs) | set(expfs)
                                    if fs.get(p) != expfs.get(p)}})
+        if op == "commit":
+            # the committed tree itself (not only what the tree says about
+            # it afterwards) holds exactly the model's content
+            got_t = {p: e[:3] for p, e in bz.snapshot_tree(
+                wt.basis_tree(), contents=True).items()}
+            if m.fmt == "git":
+                got_t = {p: e for p, e in got_t.items()
+                         if e[0] != "directory"}
+                exp_t = {p: [e[0], e[1], bool(e[2]) if e[0] == "file"
+                             else None] for p, e in m.gbasis.items()}
+            else:
+                exp_t = {m.ipath(t, m.basis): [
+                    e[2], e[3], bool(e[4]) if e[2] == "file" else None]
+                    for t, e in m.basis.items() if t != 0}
+            check(got_t == exp_t, "C09/committed-tree-differs-from-model",
+                  {"step": [i, s],
+                   "got_vs_expected": {p: [got_t.get(p), exp_t.get(p)]
+                                       for p in set(got_t) | set(exp_t)
+                                       if got_t.get(p) != exp_t.get(p)}})
         obs = observe(wt)
         sfx = (op if exp == "ok" else "refused-" + op) + with_
         compare(m, obs, idmap, sfx, [i, s])
